@@ -36,7 +36,7 @@ def run(model: Model, rep: Report, tier: str) -> None:
         "identity is the paper's theorem."
     )
     rep.trusted_base = ["Tian & Pearl 2003, Lemmas 1, 3, 4 and IDENTIFY", "C14", "C13 (Sum.safe, Product.safe, Fraction)"]
-    rep.floors = {"R17.1": 4, "R17.2": 1, "R17.3": 3, "R17.4": 2, "R17.5": 2}
+    rep.floors = {"R17.1": 4, "R17.2": 1, "R17.3": 3, "R17.4": 2, "R17.5": 2, "R17.6": 5}
     sa = SetAlg()
     n = var("%n")
     # ---------------------------------------------------------------- R17.2 Lemma 3
@@ -263,6 +263,18 @@ def run(model: Model, rep: Report, tier: str) -> None:
     if recs and arms != {"composite", "population", "plain"}:
         problems.append(f"arms found: {sorted(arms)}")
     (rep.refuted if problems else rep.proven)("R17.1", construct(f, "case-recursive"), "; ".join(sorted(set(problems))), loc(f))
+    # ---------------------------------------------------------------- R17.6 the routines are functions of their arguments
+    from ..effects import Effects
+    eff = Effects(model)
+    for q in ("identify_district_variables", "compute_c_factor", "compute_ancestral_set_q_value", "compute_c_factor_conditioning_on_topological_predecessors",
+              "compute_c_factor_marginalizing_over_topological_successors"):
+        fq = model.func(f"{TI}.{q}")
+        sm = eff.summary(fq)
+        if sm.mutates:
+            p_, es = next(iter(sm.mutates.items()))
+            rep.refuted("R17.6", construct(fq, "stateless"), f"modifies `{p_}` ({es[0].how}): the answer can depend on earlier calls (e.g. a memo keyed without the graph) or the caller's data is changed", loc(fq, es[0].line))
+        else:
+            rep.proven("R17.6", construct(fq, "stateless"), loc=loc(fq))
     # other raises are input validation only (conditions mention parameters only)
     bad = [p for p in paths if p.kind == "raise" and exc_name(p) not in ("KeyError", "TypeError", "NotImplementedError")]
     (rep.refuted if bad else rep.proven)("R17.1", construct(f, "validation-only-raises"), "unexpected exception " + exc_name(bad[0]) if bad else "", loc(f))
